@@ -836,6 +836,11 @@ class CSSVariable(CSSFunction):
         ok, seq, store, unused = ProdParser().parse(cssText,
                                                     'CSSVariable',
                                                     prods)
+        if ok and 'ident' not in store:
+            # the text ended right after "var("
+            ok = False
+            self._log.error('CSSVariable: No variable name found: %s' %
+                            self._valuestr(cssText))
         self.wellformed = ok
 
         if ok:
